@@ -295,6 +295,10 @@ def check_case(case):
     Xb = np.concatenate([eye, 1j * eye], axis=1) if is_c else eye          # N x B
     basis = np.broadcast_to(Xb.reshape((N,) + (1,) * len(ss) + (B,)), (N,) + ss + (B,)).astype(dtype)
     zb = make_signal(N, dtype, ss + (B,), np.array(basis))
+    # complex container whose every sample is real (all imaginary parts exactly zero): still a complex signal
+    if is_c:
+        basis_r = np.broadcast_to(eye.reshape((N,) + (1,) * len(ss) + (N,)), (N,) + ss + (N,)).astype(dtype)
+        zbr = make_signal(N, dtype, ss + (N,), np.array(basis_r))
     # generic payload without the trailing axis (exercises the shift.ndim == ndim-1 path)
     g = rng.uniform(-1, 1, size=(N,) + ss)
     if is_c:
@@ -326,6 +330,9 @@ def check_case(case):
             res.state((N, str(dtype), ss, shp, name, "number"))
             # --- basis input (trailing basis axis broadcasts under the shift)
             _basis_call(res, case, zb, Xb.astype(dft.CLD if is_c else dft.LD), val, sv, ss, sub)
+            if is_c and (shp is None or name.startswith("mixed0")):
+                _basis_call(res, case, zbr, eye.astype(dft.CLD), val, sv, ss, dict(sub, input="real-valued basis in a complex container"))
+                res.hits["complex signal with every imaginary part zero"] += 1
             # --- generic payload, per element column
             if shp is None or len(shp) <= len(ss):
                 _generic_call(res, case, zg, Xg, val, sv, ss, dict(sub, input="payload"))
@@ -568,7 +575,7 @@ def main(argv=None):
                        "shift array with fewer axes than the sample shape", "|s| >= N (all zero)", "crop to empty",
                        "mixed-sign crop", "time Quantity shift", "Quantity unit not reciprocal to the rate unit", "negative zero in a shift array", "argument forms", "long signal, large shift", "long signal, Quantity shift slightly off a whole sample", "long signal, float32 shift", "whole-sample Quantity shift with the count fixed by exact arithmetic", "too many dims rejected",
                        "complex even-N fractional (two Nyquist conventions accepted)",
-                       "all-zero shift (identity fast path)"],
+                       "all-zero shift (identity fast path)", "complex signal with every imaginary part zero"],
         assumptions=["phase ramp is single precision by design: value budget 16*eps32*max|x| (a more accurate implementation passes)",
                      "non-zero |s| < 1e-8 is outside the alphabet (library treats it as identity)",
                      "Nyquist-bin phase convention for complex even-N fractional shifts is left open (both accepted)"],
